@@ -356,6 +356,12 @@ class HistoryJudge:
                                                             "/content-left-by-" + prov if prov not in ("ok-cmd", "?") else "")
                     if prov == "failed-cmd" and why == "none" and not ran:
                         sig = "C01/stale/not-run/why=none/content-left-by-failed-cmd"
+                    # the failed command had already truncated its depfile: the discovered dependencies that made it dirty
+                    # (the only reasons the model has) are gone with it and the old log record vouches for what it left
+                    dfc = world.get(s["depfile"]) if s["depfile"] else None
+                    if prov == "failed-cmd" and not ran and s["deps"] == "depfile" and dfc is not None and dfc[1] == s["outs"][0] + ": \\\n" \
+                            and why != "none" and all(x.endswith(":disc") for x in why.split("+")):
+                        sig = "C01/stale/not-run/depfile-truncated-by-failed-cmd"
                     ctx.violation(sig, "scenario %s step %d (%s): after a successful build of %s, %s is %r but a clean build gives %r; "
                                        "statement %s %s in this build; model reasons: %s" %
                                   (scn["id"], i, m.get("changes"), targets, o, got and got[1], clean.get(o), sid,
